@@ -45,6 +45,7 @@ Definition ChkClear (names : list text) (i : nat) (e : cat) : bool :=
   match nth_error V i with Some x => cat_eqb (clear_features names x) e | None => false end.
 (* the same with the names given by their numbers in NM and the result by its number in V *)
 Definition names_of (ks : list nat) : list text := flat_map (fun k => match nth_error NM k with Some t => [t] | None => [] end) ks.
+Definition ChkClearC (names : list text) (x e : cat) : bool := cat_eqb (clear_features names x) e.
 Definition ChkClearI (ks : list nat) (i j : nat) : bool :=
   match nth_error V i, nth_error V j with Some x, Some e => Nat.eqb (length (names_of ks)) (length ks) && cat_eqb (clear_features (names_of ks) x) e | _, _ => false end.
 '''
@@ -112,6 +113,56 @@ def named_py(f, names):
     if type(f) is UnaryFeature:
         return f.value is not None and any(f.value == n and not ('=' in n and ',' in n) for n in names)
     return any(str(f) == n for n in names)
+
+
+def named_fl(ff, names):
+    """named_py on the field tuple of a feature"""
+    if ff[0] == 'U':
+        return ff[1] is not None and any(ff[1] == n and not ('=' in n and ',' in n) for n in names)
+    return any(','.join(f'{k}={v}' for k, v in ff[1:]) == n for n in names)
+
+
+def erase_fields(fl, names):
+    """the property, on field tuples: the named features (and only those) become 'no feature', everything else stays"""
+    if fl[0] == 'A':
+        return ('A', fl[1], ('U', None)) if named_fl(fl[2], names) else fl
+    return ('F', erase_fields(fl[1], names), fl[2], erase_fields(fl[3], names))
+
+
+def usable_name(n):
+    """a text that may be given to clear_features (see the first assumption): non-empty, and if it has both = and , it is three k=v pairs"""
+    if not n:
+        return False
+    if '=' in n and ',' in n:
+        parts = n.split(',')
+        return len(parts) == 3 and all(p.count('=') == 1 for p in parts)
+    return True
+
+
+def feature_names(x):
+    """the texts of the features that occur in x (candidates for erasure)"""
+    out = []
+    for a in atoms(x):
+        f = ffields(a.feature)
+        t = f[1] if f[0] == 'U' else ','.join(f'{k}={v}' for k, v in f[1:])
+        if t and usable_name(t) and t not in out and named_fl(f, [t]):
+            out.append(t)
+    return out
+
+
+def with_shape(rng, ats, sls):
+    """a value with exactly these atoms and slashes from left to right, nested at random"""
+    if len(ats) == 1:
+        return ats[0]
+    k = rng.randrange(len(sls))
+    return Functor(with_shape(rng, ats[:k + 1], sls[:k]), sls[k], with_shape(rng, ats[k + 1:], sls[k + 1:]))
+
+
+def proper_subterms(x):
+    if type(x) is Functor:
+        for s in (x.left, x.right):
+            yield s
+            yield from proper_subterms(s)
 
 
 class _H:
@@ -230,6 +281,23 @@ def run(ctx):
     for _ in range(n_rand):       # deeper random values and a near-copy of each
         c = gen.rand_cat(rng, rng.choice(['en', 'en', 'ja']), depth=rng.randint(2, 4), exotic=rng.random() < 0.3, slashes=gen.SLASHES)
         vals += [c, mutate(rng, c)]
+    # the same atoms and slashes from left to right under different bracketings (3..5 atoms; their texts coincide once the brackets are
+    # dropped): different values that are never ^-related; plus one of them with other features (^-related to that bracketing only)
+    n_rebr = 0
+    for _ in range(8 if ctx.quick else 20):
+        pool_a = en_atoms[:7] if rng.random() < 0.5 else ja_atoms
+        k = rng.choice([3, 3, 4, 5])
+        ats = [rng.choice(pool_a) for _ in range(k)]
+        sls = [rng.choice(gen.SLASHES[:2] if rng.random() < 0.85 else gen.SLASHES) for _ in range(k - 1)]
+        shapes = {}
+        for _ in range(10):
+            d = with_shape(rng, ats, sls)
+            shapes.setdefault(skel(d), d)
+        picked = list(shapes.values())[:3]
+        vals += picked
+        vals.append(with_shape(rng, [Atom(a.base, rng.choice(pool_a).feature) if a.base not in (',', 'conj') else a for a in ats], sls))
+        n_rebr += len(picked) + 1
+    ctx.stats['values_rebracketed'] = n_rebr
     for lang in ('en', 'en_rebank', 'ja'):
         vals += [Category.parse(s) for s in rng.sample(gen.inventory(lang), n_inv // 3)]
     # a few values appear twice on purpose (equal but separately built), the rest are distinct
@@ -448,6 +516,141 @@ def run(ctx):
             if tf(lambda: r ^ x) is not True:
                 ctx.fail('clear_not_xor', f'{str(x)!r}.clear_features{tuple(names)} = {str(r)!r} is not ^-related to the receiver', data)
 
+    # ------------------------------------------------------------------ chained erasure: clear_features on what clear_features returned
+    # c.clear_features(*A).clear_features(*B)[.clear_features(*C)] erases exactly A u B [u C]; it is the value c.clear_features(*(A u B)) gives
+    # (==, text, hash); an intermediate result answers like any separately built / freshly parsed equal value, and so do its sub-categories
+    def same_value(a, b):
+        return fields(a) == fields(b) and tf(lambda: a == b) is True and tf(lambda: a != b) is False and str(a) == str(b) and isinstance(hv(a), int) and hv(a) == hv(b)
+
+    def show(fl):
+        try:
+            return str(_from_fields(fl))
+        except Exception:      # noqa
+            return repr(fl)
+
+    chain_listed = [0]
+
+    def chain_fail(kind, desc, data):
+        if chain_listed[0] >= 12:
+            ctx.count('chain_failures_not_listed')
+            return
+        chain_listed[0] += 1
+        ctx.fail(kind, desc, data)
+
+    def call_text(c, steps):
+        return repr(str(c)) + ''.join(f'.clear_features{tuple(nm)!r}' if len(nm) != 1 else f'.clear_features({nm[0]!r})' for nm in steps)
+
+    def one_chain(c, steps, to_coq):
+        before = fields(c)
+        data = {'x': repr(before), 'x_text': str(c), 'names': list(steps[0]), 'then': [list(nm) for nm in steps[1:]], 'stream': 'chain'}
+        cur, acc = c, []
+        try:
+            for k, names in enumerate(steps):
+                prev, fprev = cur, fields(cur)
+                cur = prev.clear_features(*names)
+                acc = acc + list(names)
+                got, want = fields(cur), erase_fields(before, acc)
+                if fields(prev) != fprev:
+                    chain_fail('clear_mutates_argument', f'{call_text(c, steps[:k + 1])}: the last call changed its receiver {show(fprev)!r} into {str(prev)!r}', data)
+                    return
+                if got != want:
+                    chain_fail('chained_clear_wrong', f'{call_text(c, steps[:k + 1])} = {str(cur)!r}; erasing {sorted(set(acc))} from the first value gives {show(want)!r} '
+                               f'(the receiver of the last call was {str(prev)!r}, itself the result of an erasure)' if k else
+                               f'{call_text(c, steps[:1])} = {str(cur)!r}, expected {show(want)!r}', data)
+                    return
+                if k == 0:
+                    continue
+                # equal values answer equally: a separately built copy and a freshly parsed copy of the intermediate result
+                twins = [('separately built', rebuild(prev))]
+                if gen.wf_py(prev):
+                    try:
+                        p = Category.parse(str(prev))
+                        if fields(p) == fprev:
+                            twins.append(('freshly parsed', p))
+                    except Exception:      # noqa  (reading back is C05's business)
+                        pass
+                for how, tw in twins:
+                    rt = tw.clear_features(*names)
+                    if not same_value(rt, cur):
+                        chain_fail('equal_values_erase_differently', f'{str(prev)!r}.clear_features{tuple(names)!r} = {str(cur)!r} on the result of {call_text(c, steps[:k])}, but '
+                                   f'{str(rt)!r} (hash {hv(rt)} vs {hv(cur)}) on a {how} value with the same fields', data)
+                        return
+                # ... and so do the sub-categories of an erased result
+                for s_ in itertools.islice(proper_subterms(prev), 8):
+                    fs_ = fields(s_)
+                    rs = s_.clear_features(*names)
+                    if fields(rs) != erase_fields(fs_, names) or not same_value(rs, rebuild(s_).clear_features(*names)):
+                        chain_fail('chained_clear_wrong_on_subcategory', f'sub-category {str(s_)!r} of the result of {call_text(c, steps[:k])}: .clear_features{tuple(names)!r} = {str(rs)!r}, '
+                                   f'expected {show(erase_fields(fs_, names))!r}', data)
+                        return
+            direct = c.clear_features(*acc)
+            if not same_value(cur, direct):
+                chain_fail('chain_differs_from_union', f'{call_text(c, steps)} = {str(cur)!r} but {call_text(c, [acc])} = {str(direct)!r} (hashes {hv(cur)} / {hv(direct)})', data)
+                return
+            again = cur.clear_features(*steps[-1])
+            if not same_value(again, cur):
+                chain_fail('clear_not_idempotent', f'{call_text(c, steps)} = {str(cur)!r}; erasing {tuple(steps[-1])!r} once more gives {str(again)!r}', data)
+                return
+        except Exception as e:      # noqa
+            chain_fail('clear_raises', f'{call_text(c, steps)} raised {type(e).__name__}: {e}', data)
+            return
+        later = erase_fields(before, acc) != erase_fields(before, list(steps[0]))
+        ctx.case(('chain', before, tuple(tuple(nm) for nm in steps)), nontrivial=later)
+        ctx.count('chain:' + ('a-later-step-erases' if later else 'first-step-erases-all' if fields(cur) != before else 'nothing-erased'))
+        ctx.count(f'chain:steps={len(steps)}')
+        if to_coq:
+            cases.append(f'ChkClearC {lits(acc)} {gcat(c)} {gcat(cur)}')
+            descr.append(('chain', str(c), [list(nm) for nm in steps], str(cur)))
+
+    dense_en = [None, 'X', 'X', 'nb', 'nb', 'dcl', 'b', 'em']
+
+    def dense(system, depth):
+        """features on nearly every atom, few different ones: every name set hits several atoms and leaves others"""
+        if depth == 0 or rng.random() < 0.2:
+            if system == 'en':
+                return gen.mk_atom(rng.choice(['S', 'NP', 'N', 'PP']), rng.choice(dense_en))
+            return gen.mk_atom(rng.choice(['S', 'NP']), rng.choice(gen.JA_FEATS[:6] + [None]))
+        return Functor(dense(system, depth - 1), rng.choice(gen.SLASHES[:2] if rng.random() < 0.9 else gen.SLASHES), dense(system, depth - 1))
+
+    COMMON = ['nb', 'X', 'dcl', TRIPLE, 'case=X1,mod=X2,fin=f', 'b']
+
+    def name_set(own):
+        if rng.random() < 0.1:
+            return []
+        out = []
+        for _ in range(rng.choice([1, 1, 1, 2, 2, 3])):
+            out.append(rng.choice(own) if own and rng.random() < 0.6 else rng.choice(COMMON) if rng.random() < 0.93 else 'zz')      # a name may repeat
+        return out
+
+    featured = [v for v in V if type(v) is Functor and feature_names(v)]
+    chain_cats = rng.sample(featured, min(len(featured), 150 if ctx.quick else 600))
+    for _ in range(300 if ctx.quick else 3000):
+        system = rng.choice(['en', 'en', 'ja'])
+        chain_cats.append(dense(system, rng.choice([1, 2, 2, 3, 3, 4])))
+    for _ in range(40 if ctx.quick else 300):
+        chain_cats.append(gen.rand_cat(rng, rng.choice(['en', 'ja']), depth=rng.randint(1, 3), exotic=True, slashes=gen.SLASHES))
+    n_coq = 0
+    for ci, c in enumerate(chain_cats):
+        own = feature_names(c)
+        for rep in range(3 if ctx.quick else 6):
+            a = name_set(own)
+            r = rng.random()
+            if r < 0.12:
+                b = list(a)                                   # the same names again
+            elif r < 0.22:
+                b = list(reversed(a)) + name_set(own)        # a superset
+            else:
+                b = name_set(own)
+            steps = [a, b]
+            if rng.random() < 0.35:
+                steps.append(name_set(own) if rng.random() < 0.8 else list(a))
+            if rep == 0 and len(own) >= 2:                   # one name at a time, in the order of occurrence / reversed
+                steps = [[nm] for nm in (own if rng.random() < 0.5 else list(reversed(own)))][:3]
+            to_coq = n_coq < (1200 if ctx.quick else 9000) and (rep == 0 or rng.random() < 0.5)
+            n_coq += to_coq
+            one_chain(c, steps, to_coq)
+    ctx.stats['chain_values'] = len(chain_cats)
+
     # the two tables are compiled once (in parallel) and loaded by every shard
     ok = compile_tables(ctx, {'TabV': TAB_HEAD + f'Definition V : list cat := {glist(V, gcat)}.\n',
                               'TabT': TAB_HEAD + f'Definition T : list text := {lits(T)}.\n'})
@@ -467,7 +670,12 @@ def run(ctx):
              'mixed-system values, random deeper values each with a one-field mutant, parsed inventory categories, and separately rebuilt duplicates; '
              'cases = every ordered pair (==, !=, ^, hash of separately built copies), every value against every text (own texts, texts of the other values, '
              'redundant-bracket/blank variants, inventory texts), set/dict lookups of rebuilt values, clear_features with every subset of '
-             "{X, nb, dcl, 'mod=nm,form=base,fin=t'}; non-trivial = off-diagonal pair / a feature is actually erased; distinct by field tuples",
+             "{X, nb, dcl, 'mod=nm,form=base,fin=t'}; chained erasures c.clear_features(*A).clear_features(*B)[.clear_features(*C)] on sampled values, "
+             'densely featured random values (both systems) and exotic ones, names from the features occurring in the value, nb, X, dcl, ..., the empty '
+             'and repeated sets: the result is erase(A u B u C) (oracle and model), the value of the one-call erasure of the union (==, text, hash), every '
+             'intermediate result and its sub-categories answer like separately built / freshly parsed equal values; values with the same atoms and slashes '
+             'under different bracketings are among the pairs; '
+             'non-trivial = off-diagonal pair / a feature is actually erased (chains: by a later step); distinct by field tuples',
         assumptions=['feature names given to clear_features are texts Feature.parse accepts (a name with both = and , must be three k=v pairs; otherwise Python raises TypeError and the model says "no match")',
                      'hash coherence is proved for every str/None/tuple hash; the theorems do not say that different values hash differently',
                      'C13_eq_str_unique needs the wf domain of C05 (names free of []()/\\|<> and blanks, ...): outside it two different values can print the same text'])
@@ -508,6 +716,14 @@ def replay(data):
                 try:
                     r = x.clear_features(*d['names'])
                     print(f"   x.clear_features{tuple(d['names'])} = {str(r)!r}; again = {str(r.clear_features(*d['names']))!r}")
+                    if d.get('then'):      # a chained erasure: the chain on the objects, on separately built copies at every step, and the union in one call
+                        steps, cur, cp, acc = [d['names']] + d['then'], x, rebuild(x), []
+                        for nm in steps:
+                            cur, cp, acc = cur.clear_features(*nm), rebuild(cp).clear_features(*nm), acc + list(nm)
+                        want = _from_fields(erase_fields(fields(x), acc))
+                        print(f"   chain {steps}: {str(cur)!r} (hash {hv(cur)}); on separately built copies at every step: {str(cp)!r} (hash {hv(cp)}); "
+                              f"all names in one call: {str(x.clear_features(*acc))!r}; expected {str(want)!r}: "
+                              f"{'REPRODUCED' if not (fields(cur) == fields(cp) == fields(want) == fields(x.clear_features(*acc))) else 'chain agrees now'}")
                 except Exception as e:      # noqa
                     print(f'   clear_features raised {type(e).__name__}: {e}')
         elif 'text' in d:
